@@ -149,6 +149,11 @@ def every_path(ck, rng) -> int:
             "HTMLTextDocument (HTML head)": lambda: HTMLTextDocument("<html><head>PH</head><body>PH</body></html>", [dep_h], "PH").render()["html"],
             "HTMLTextDocument (str head)": lambda: HTMLTextDocument("<head>PH</head>", [dep_s], "PH").render()["html"],
             "HTMLTextDocument (script/style text)": lambda: HTMLTextDocument("<head>PH</head>", [dep_t], "PH").render()["html"],
+            # the HTML() object itself as the iterable of a child operation: its pieces are trusted markup too
+            "TagList.extend(HTML)": lambda: (lambda x: (x.extend(HTML(s)), x.get_html_string())[1])(TagList("t")),
+            "TagList += HTML": lambda: (lambda x: (x.__iadd__(HTML(s)), str(x))[1])(TagList()),
+            "TagList + HTML": lambda: (TagList("t") + HTML(s)).get_html_string(),
+            "Tag.extend(HTML)": lambda: (lambda x: (x.extend(HTML(s)), x.get_html_string())[1])(Tag("span", "t")),
         }
         for name, f in paths.items():
             n += 1
